@@ -459,8 +459,24 @@ def replay(pid, mod, path):
     log("why:    " + r["why"])
     # re-evaluate through the generator's oracle when the property module can rebuild it
     f = None
-    if hasattr(mod, "replay_oracle"):
+    import pydriver
+    exp = pydriver.expected(r["line"]) if r.get("backend") != "num-vs-rug" else None
+    if r.get("backend") == "num-vs-rug":
+        ok2, b2, _ = build_harness(True)
+        o2 = run_lines([b2], [r["line"]], env={"VERIF_PANIC_MSG": "1"})[0]
+        o1 = run_lines([impl_bin], [r["line"]], env={"VERIF_PANIC_MSG": "1"})[0]
+        log("num:    " + o1[:300]); log("rug:    " + o2[:300])
+        if o1 != o2:
+            f = "the two big-integer back ends disagree"
+    elif hasattr(mod, "replay_oracle"):
         f = mod.replay_oracle(r["line"], o)
+    elif exp is not None:
+        # the independent Python reference recomputes what the property definitions require for this line
+        log("expect: " + exp[:400])
+        if pid == "C14":
+            f = None if not (o.startswith("panic") or o.startswith("<no-output")) else r["why"]
+        elif o != exp:
+            f = "implementation output differs from the independent reference"
     elif o == r["impl_out"]:
         f = r["why"]
     if f:
